@@ -269,7 +269,8 @@ def fam_whiledec(tier):
         g.add('whiledec-for', b'mixed @F(' + T + b' n) { ' + pre + b'for (; n--; ) { ' + BODY1 + b' } return ({ c, n }); }', A)
         g.add('whiledec-do', b'mixed @F(' + T + b' n) { ' + pre + b'if (n--) do { ' + BODY1 + b' } while (n--); return ({ c, n }); }', A)
         g.add('whiledec-elem', b'mixed @F(mixed n) { ' + pre + b'mixed *v = ({ n }); while (v[0]--) { ' + BODY1 + b' } return ({ c, v[0] }); }', A)
-        g.add('whiledec-ne0', b'mixed @F(' + T + b' n) { ' + pre + b'while (n-- != 0) { ' + BODY1 + b' } return ({ c, n }); }', A)
+        if t == 'i':        # (for a float, 0.0 != 0 is false while 0.0 as a condition is true)
+            g.add('whiledec-ne0', b'mixed @F(' + T + b' n) { ' + pre + b'while (n-- != 0) { ' + BODY1 + b' } return ({ c, n }); }', A)
         yield g
     for n in (b'a', [1]):
         g = Group('loop', 'whiledec', tname(n), ('E', 'type'), b'while (n--) n=' + lit(n))
